@@ -8,6 +8,7 @@ package main
 
 import (
 	"fmt"
+	"os"
 	"strings"
 
 	"verif/harness/hlib"
@@ -19,6 +20,10 @@ import (
 func main() { hlib.Main("C04", run) }
 
 func run(c *hlib.Ctx) {
+	if os.Getenv("C04_RS_CHILD") != "" {
+		rectSetChild(c)
+		return
+	}
 	runBool(c)
 	runSmooth(c)
 	runSmoothFloat(c)
